@@ -51,10 +51,60 @@ C['vf_amap_r'] = ([ID('a', 'b'), '__CPROVER_is_fresh(out, 8)'], ['__CPROVER_obje
 C['vf_amap_l'] = ([ID('a', 'b'), '__CPROVER_is_fresh(out, 8) && __CPROVER_is_fresh(st, 8)'], ['__CPROVER_object_whole(out)', '__CPROVER_object_whole(st)'], ['out[0] == a + 1000 && out[1] == b + 1000 && st[0] == 0 && st[1] == 0', NOMOVE, NORM], 'array::map on an lvalue array: source intact')
 C['vf_tmap_r'] = ([ID('a', 'b'), '__CPROVER_is_fresh(out, 8)'], ['__CPROVER_object_whole(out)'], ['out[0] == a && out[1] == b', NOCOPY, NORM], 'tuple::map on an rvalue tuple')
 
+# ---- range algorithms and container helpers on the fixed-capacity instrumented container (cont.cpp) ----
+K = {}
+IDC = lambda *ids: ' && '.join('%s < 7' % i for i in ids) + ' && ' + ' && '.join('%s != %s' % (a, b) for k, a in enumerate(ids) for b in ids[k + 1:])
+E3 = lambda k: '(%s == 0 ? a0 : (%s == 1 ? a1 : a2))' % (k, k)
+FR = lambda *ps: ' && '.join('__CPROVER_is_fresh(%s, %d)' % (p, 8 if p.endswith('n') else 16) for p in ps)
+OWS = lambda *ps: ['__CPROVER_object_whole(%s)' % p for p in ps]
+seq = lambda n, arr, f, m=4: '*%s == %s && ' % (n, '%s') + ' && '.join('VF_IMP(%d < *%s, %s[%d] == %s)' % (k, n, arr, k, f(str(k))) for k in range(m))
+SRC3 = 'n <= 3 && ' + IDC('a0', 'a1', 'a2')
+K['vf_cmap_r'] = ([SRC3, FR('on', 'ids')], OWS('on', 'ids'), [seq('on', 'ids', E3) % 'n', NOCOPY, NORM], 'algorithm::map on an rvalue container: every element is moved into the function, in order, never copied')
+K['vf_cmap_l'] = ([SRC3, FR('on', 'ids', 'sn', 'sids')], OWS('on', 'ids', 'sn', 'sids'), [seq('on', 'ids', lambda k: E3(k) + ' + 1000') % 'n', seq('sn', 'sids', E3) % 'n', NOCOPY, NORM], 'algorithm::map on an lvalue container: the source is intact (no element moved from), nothing is copied by the library')
+FOLD = '(n == 0 ? 1 : (n == 1 ? 8 + a0 : (n == 2 ? (8 + a0) * 8 + a1 : ((8 + a0) * 8 + a1) * 8 + a2)))'
+K['vf_cfold_r'] = ([SRC3], [], ['__CPROVER_return_value == ' + FOLD, NOCOPY, NORM], 'algorithm::fold on an rvalue container: elements are handed to the function in order, never copied')
+K['vf_cfold_l'] = ([SRC3, FR('sn', 'sids')], OWS('sn', 'sids'), ['__CPROVER_return_value == ' + FOLD, seq('sn', 'sids', E3) % 'n', NOCOPY, NORM], 'algorithm::fold on an lvalue container: source intact')
+K['vf_cmap_concat'] = ([SRC3, FR('on', 'ids')], OWS('on', 'ids'), [seq('on', 'ids', E3) % 'n', NOCOPY, NORM], 'algorithm::map_concat: the partial results are joined by move - every element appears exactly once, in order, never copied')
+TWO = 'n1 <= 2 && n2 <= 2 && ' + IDC('a0', 'a1', 'b0', 'b1')
+XA = lambda k: '(%s == 0 ? a0 : a1)' % k
+YB = lambda k: '(%s == 0 ? b0 : b1)' % k
+JR = seq('on', 'ids', lambda k: '(%s < n1 ? %s : %s)' % (k, XA(k), YB('(%s - n1)' % k))) % 'n1 + n2'
+ONCE = lambda n, ids: ' && '.join('n_copy[%s] == __CPROVER_old(n_copy[%s]) + (%s > %d ? 1 : 0)' % (i, i, n, k) for k, i in enumerate(ids))
+NEVER = lambda ids: ' && '.join('n_copy[%s] == __CPROVER_old(n_copy[%s])' % (i, i) for i in ids)
+K['vf_cjoin_rr'] = ([TWO, FR('on', 'ids')], OWS('on', 'ids'), [JR, NOCOPY, NORM], 'container::join(rvalue, rvalue): all elements, in order, each exactly once, none copied')
+K['vf_cjoin_ll'] = ([TWO, FR('on', 'ids', 'xn', 'xids', 'yn', 'yids')], OWS('on', 'ids', 'xn', 'xids', 'yn', 'yids'), [JR, seq('xn', 'xids', XA, 2) % 'n1', seq('yn', 'yids', YB, 2) % 'n2', ONCE('n1', ('a0', 'a1')), ONCE('n2', ('b0', 'b1')), NORM],
+                     'container::join(lvalue, lvalue): both arguments intact (same size, no element moved from), every element copied exactly once')
+K['vf_cjoin_rl'] = ([TWO, FR('on', 'ids', 'yn', 'yids')], OWS('on', 'ids', 'yn', 'yids'), [JR, seq('yn', 'yids', YB, 2) % 'n2', NEVER(('a0', 'a1')), ONCE('n2', ('b0', 'b1')), NORM], 'container::join(rvalue, lvalue): the lvalue is intact (also when the first container is empty), the rvalue elements are never copied')
+K['vf_cjoin_lr'] = ([TWO, FR('on', 'ids', 'xn', 'xids')], OWS('on', 'ids', 'xn', 'xids'), [JR, seq('xn', 'xids', XA, 2) % 'n1', ONCE('n1', ('a0', 'a1')), NEVER(('b0', 'b1')), NORM], 'container::join(lvalue, rvalue): the lvalue is intact, the rvalue elements are never copied')
+K['vf_cpop_back'] = ([SRC3, FR('sn', 'sids')], OWS('sn', 'sids'), ['__CPROVER_return_value == (n == 0 ? (u32)-1 : %s)' % E3('(n - 1)'), seq('sn', 'sids', E3) % '(n == 0 ? 0 : n - 1)', NOCOPY, NORM], 'container::pop_back: the last element is moved out (never copied), the rest is intact')
+K['vf_cmove_clear'] = ([SRC3, FR('on', 'ids', 'sn')], OWS('on', 'ids', 'sn'), [seq('on', 'ids', E3) % 'n', '*sn == 0', NOCOPY, NORM], 'move_clear: the result holds all elements (moved, never copied), the argument is left empty')
+
+
+import itertools
+HH = ['h0', 'h1', 'h2']; AA = ['a0', 'a1', 'a2']
+def filt(keep, val, outn='*on', out='ids'):
+    cl = []
+    for m in itertools.product((0, 1), repeat=3):
+        cond = ' && '.join(('(%d < n && %s)' % (k, keep(k))) if m[k] else ('!(%d < n && %s)' % (k, keep(k))) for k in range(3))
+        kept = [k for k in range(3) if m[k]]
+        cl.append('VF_IMP(%s, %s)' % (cond, ' && '.join(['%s == %d' % (outn, len(kept))] + ['%s[%d] == %s' % (out, j, val(k)) for j, k in enumerate(kept)])))
+    return cl
+OS = 'n <= 3 && ' + IDC('a0', 'a1', 'a2') + ' && ' + B('h0', 'h1', 'h2')
+ALLH = '(' + ' && '.join('(!(%d < n) || %s)' % (k, HH[k]) for k in range(3)) + ')'
+FF = '(!(0 < n && !h0) ? (!(1 < n && !h1) ? a2 : a1) : a0)'
+INT = ' && '.join('st[%d] == (h%d ? 1 : 0)' % (k, k) for k in range(3))
+ALLIDS = 'VF_IMP(%s, *on == n && %s)' % (ALLH, ' && '.join('VF_IMP(%d < n, ids[%d] == a%d)' % (k, k, k) for k in range(3)))
+K['vf_ccat_r'] = ([OS, FR('on', 'ids')], OWS('on', 'ids'), filt(lambda k: HH[k], lambda k: AA[k]) + [NOCOPY, NORM], 'optional::cat on an rvalue container of optionals: the held values are moved out, never copied')
+K['vf_ccat_l'] = ([OS, FR('on', 'ids') + ' && __CPROVER_is_fresh(st, 12)'], OWS('on', 'ids', 'st'), filt(lambda k: HH[k], lambda k: AA[k]) + [INT, ' && '.join('n_copy[a%d] == __CPROVER_old(n_copy[a%d]) + ((%d < n && h%d) ? 1 : 0)' % (k, k, k, k) for k in range(3)), NORM],
+                  'optional::cat on an lvalue container: the source optionals are intact, every held value is copied exactly once')
+K['vf_cseq_r'] = ([OS, FR('on', 'ids')], OWS('on', 'ids'), ['__CPROVER_return_value == ' + ALLH, ALLIDS, NOCOPY, NORM], 'optional::sequence on an rvalue container: values moved, never copied')
+K['vf_cseq_l'] = ([OS, FR('on', 'ids') + ' && __CPROVER_is_fresh(st, 12)'], OWS('on', 'ids', 'st'), ['__CPROVER_return_value == ' + ALLH, ALLIDS, INT, NORM], 'optional::sequence on an lvalue container: the source is intact')
+K['vf_ceseq_r'] = ([OS, FR('on', 'ids') + ' && __CPROVER_is_fresh(fail, 4)'], OWS('on', 'ids') + ['*fail'], ['__CPROVER_return_value == ' + ALLH, ALLIDS, 'VF_IMP(!%s, *fail == %s)' % (ALLH, FF), NOCOPY, NORM],
+                   'either::sequence on an rvalue container: successes and the first failure are moved, never copied')
 
 def make(tier):
     P = Plan('C05', level='proof', design_ref='DESIGN.md section 5 C05')
-    P.not_decided += ['range algorithms and containers on the heap: algorithm::map / fold / fold_break / map_concat / map_optional / reverse, container::join / pop_back / pop_front / make_move_range, optional / either::sequence, grid::map / apply / resize, tree constructors, options / parse constructors',
+    P.not_decided += ['the same algorithms on heap containers (std::vector steals the buffer on move; the contracts here are checked on a fixed-capacity container of the instrumented type): algorithm::fold_break / map_optional / reverse, container::pop_front / make_move_range, optional / either::sequence, grid::map / apply / resize, tree constructors, options / parse constructors',
                       'record::permute / multiply_disjoint / map, array::join / from_range, tuple::push_back (not built)']
     P.meta += ['the element type records copies, moves and reads of moved-from objects in ghost counters per element id; by parametricity the contracts carry over to every element type, in particular move-only ones (a copy would not compile there)']
     spec = ''
@@ -64,4 +114,12 @@ def make(tier):
     u = P.unit('c05', 'shim.cpp', specs=['c05.spec'], harness=['harness.c'], pre=['ghost.h'], inline=True)
     for f, (req, asg, ens, what) in C.items():
         u.contract(f, cls='P', backends=['sat', 'cvc5'], what=what, native=False, timeout=600)
+    kspec = ''
+    for f, (req, asg, ens, what) in K.items():
+        kspec += 'function %s\n' % f + ''.join('  __CPROVER_requires(%s)\n' % r for r in req if r) + '  __CPROVER_assigns(%s)\n' % ', '.join(asg + [G]) + ''.join('  __CPROVER_ensures(%s)\n' % e for e in ens)
+    P.generated['c05k.spec'] = kspec
+    uk = P.unit('cont', 'cont.cpp', specs=['c05k.spec'], harness=['harness.c'], pre=['ghost.h'], inline=True)
+    for f, (req, asg, ens, what) in K.items():
+        uk.contract(f, cls='W', unwind=10, backends=['sat', 'cvc5'], what=what, native=False, timeout=900,
+                    bound='fixed-capacity container (capacity 4) with symbolic size <= 3 (join: 2 + 2): every loop is bounded by the capacity, unwinding assertions on; complete for this container type')
     return P
